@@ -30,7 +30,11 @@ func (m maxDistance) negative() distance        { return maxDistance(s1.InfChord
 func (m maxDistance) infinity() distance        { return maxDistance(s1.NegativeChordAngle) }
 func (m maxDistance) less(other distance) bool  { return m.chordAngle() > other.chordAngle() }
 func (m maxDistance) sub(other distance) distance {
-	return maxDistance(m.chordAngle() + other.chordAngle())
+	// Add as chord angles (clamped at 180 degrees); the sentinels stay what they are.
+	if c := m.chordAngle(); c < 0 || c.IsInfinity() {
+		return m
+	}
+	return maxDistance(m.chordAngle().Add(other.chordAngle()))
 }
 func (m maxDistance) chordAngleBound() s1.ChordAngle {
 	return s1.StraightChordAngle - m.chordAngle()
